@@ -81,11 +81,13 @@ theorem chunk_whole {res : Bytes} {cs i : Nat} (h : (chunkRange res cs i).length
   by_cases hr : res = []
   · subst hr; simp
   · have hpos : 0 < res.length := List.length_pos_iff.mpr hr
-    simp at h
-    have h0 : i * cs = 0 := by omega
-    rw [h0]
-    simp
-    omega
+    have hl : min cs (res.length - i * cs) = res.length := by
+      simpa [List.length_take, List.length_drop] using h
+    generalize i * cs = a at *
+    have h0 : a = 0 := by omega
+    have hc : res.length ≤ cs := by omega
+    subst h0
+    simp [List.take_of_length_le hc]
 
 /-- **attempt_exact**: whatever the server answers (any prefix length, `206` or `200`), a body
 that `fetchChunk` accepts is exactly the bytes of the requested range. -/
@@ -149,7 +151,7 @@ theorem hedgeScan_rel (maxHedges : Int) (slow : List Nat) (bound : Nat) :
           have hnh : s.hedged.getD i false = false := by
             cases hh : s.hedged.getD i false with
             | false => rfl
-            | true => simp [hh] at hskip
+            | true => rw [hh] at hskip; simp at hskip
           have hget := getD_false_get hi hnh
           have hc : countFalse (s.hedged.set i true) + 1 = countFalse s.hedged :=
             countP_set (fun b => !b) s.hedged i true false hget rfl rfl
@@ -203,7 +205,7 @@ exactly one, stored chunks are never replaced, and a failure for a chunk that is
 changes nothing but the in-flight set. -/
 theorem step_spec (p : Params) (s s' : St) (a : Act) (h : Inv p s) (hs : step p s a = some s') :
     Inv p s' ∧ measure s' + 1 = measure s ∧
-    (∀ i d, s.results[i]? = some (some d) → s'.results[i]? = some (some d)) ∧
+    (∀ (i : Nat) (d : Bytes), s.results[i]? = some (some d) → s'.results[i]? = some (some d)) ∧
     (∀ b ∈ s.inflight, b ∈ s'.inflight ∨ s.inflight[a.j]? = some b) := by
   unfold step at hs
   split at hs
@@ -226,21 +228,21 @@ theorem step_spec (p : Params) (s s' : St) (a : Act) (h : Inv p s) (hs : step p 
       have m1 : measure { s with inflight := s.inflight.eraseIdx a.j, expected := s.expected - 1 } + 1
           = measure s := by
         unfold measure; simp; omega
-      have keep1 : ∀ b ∈ s.inflight, b ∈ s.inflight.eraseIdx a.j ∨ s.inflight[a.j]? = some b := by
+      have keep1 : ∀ b ∈ s.inflight, b ∈ s.inflight.eraseIdx a.j ∨ some att = some b := by
         intro b hb
         rcases List.getElem?_of_mem hb with ⟨k, hk⟩
         by_cases hkj : k = a.j
-        · right; rw [← hkj]; exact hk
+        · right; rw [← hatt, ← hkj]; exact hk
         · left; exact List.mem_eraseIdx_iff_getElem?.mpr ⟨k, hkj, hk⟩
       cases hres : attemptResult p.res p.cs att.chunk a.resp with
       | none =>
         simp only [hres] at hs
         split at hs
         · cases hs
-          exact ⟨inv1, m1, fun _ _ hh => hh, by simpa [hatt] using keep1⟩
+          exact ⟨inv1, m1, fun _ _ hh => hh, keep1⟩
         · cases hs
           refine ⟨⟨inv1.lenR, inv1.lenH, inv1.exp, inv1.rem, inv1.exact, inv1.inb⟩, m1,
-            fun _ _ hh => hh, by simpa [hatt] using keep1⟩
+            fun _ _ hh => hh, keep1⟩
       | some data =>
         simp only [hres] at hs
         have hdata := attempt_exact p.res p.cs att.chunk a.resp data hres
@@ -252,7 +254,7 @@ theorem step_spec (p : Params) (s s' : St) (a : Act) (h : Inv p s) (hs : step p 
                           results := s.results.set att.chunk (some data),
                           remaining := s.remaining - 1 }) = s2 at hs
         have inv2 : Inv p s2 ∧ measure s2 + 1 = measure s ∧
-            (∀ i d, s.results[i]? = some (some d) → s2.results[i]? = some (some d)) ∧
+            (∀ (i : Nat) (d : Bytes), s.results[i]? = some (some d) → s2.results[i]? = some (some d)) ∧
             s2.inflight = s.inflight.eraseIdx a.j := by
           by_cases hst : stored { s with inflight := s.inflight.eraseIdx a.j, expected := s.expected - 1 } att.chunk = true
           · simp only [hst, if_true] at hs2
@@ -263,12 +265,14 @@ theorem step_spec (p : Params) (s s' : St) (a : Act) (h : Inv p s) (hs : step p 
             have hst' : stored s att.chunk = false := by
               simpa [stored] using hst
             have hget := not_stored_get (by rw [h.lenR]; exact hchunk) hst'
-            have hc : countNone (s.results.set att.chunk (some data)) + 1 = countNone s.results :=
-              countP_set (fun o => o.isNone) s.results att.chunk (some data) none hget rfl rfl
+            have hc : countNone (s.results.set att.chunk (some data)) + 1 = countNone s.results := by
+              unfold countNone
+              exact countP_set _ s.results att.chunk (some data) none hget rfl rfl
             refine ⟨⟨by simp [h.lenR], h.lenH, by have := h.exp; simp; omega, ?_, ?_,
               fun b hb => h.inb b (List.mem_of_mem_eraseIdx hb)⟩, ?_, ?_, rfl⟩
-            · have := h.rem; simp; omega
+            · have := h.rem; (try simp); omega
             · intro i d hid
+              replace hid : (s.results.set att.chunk (some data))[i]? = some (some d) := hid
               simp only [List.getElem?_set] at hid
               by_cases hic : att.chunk = i
               · subst hic
@@ -276,8 +280,9 @@ theorem step_spec (p : Params) (s s' : St) (a : Act) (h : Inv p s) (hs : step p 
                 rw [← hid]; exact hdata
               · simp [hic] at hid
                 exact h.exact i d hid
-            · unfold measure; simp; omega
+            · unfold measure; (try simp); omega
             · intro i d hid
+              show (s.results.set att.chunk (some data))[i]? = some (some d)
               simp only [List.getElem?_set]
               by_cases hic : att.chunk = i
               · subst hic; rw [hget] at hid; cases hid
@@ -317,7 +322,7 @@ theorem init_measure (n : Nat) : measure (init n) = 2 * n := by
 
 theorem run_spec (p : Params) : ∀ (acts : List Act) (s s' : St), Inv p s → run p s acts = some s' →
     Inv p s' ∧ measure s' + acts.length = measure s ∧
-    (∀ i d, s.results[i]? = some (some d) → s'.results[i]? = some (some d))
+    (∀ (i : Nat) (d : Bytes), s.results[i]? = some (some d) → s'.results[i]? = some (some d))
   | [], s, s', h, hr => by
     simp [run] at hr; subst hr; exact ⟨h, by simp, fun _ _ hh => hh⟩
   | a :: as, s, s', h, hr => by
@@ -360,7 +365,7 @@ theorem never_waits_idle (p : Params) (acts : List Act) (s : St)
   simp only
   split
   · split <;> simp
-  · split <;> simp
+  · split <;> split <;> simp
 
 theorem assemble_exact (res : Bytes) (cs : Nat) : ∀ (l : List (Option Bytes)) (k : Nat) (bs : Bytes),
     (∀ i d, l[i]? = some (some d) → d = chunkRange res cs (k + i)) →
@@ -393,6 +398,7 @@ theorem numChunks_covers (len cs : Nat) (hcs : 0 < cs) : len ≤ numChunks len c
   have h1 := Nat.div_add_mod (len + cs - 1) cs
   have h2 := Nat.mod_lt (len + cs - 1) hcs
   rw [Nat.mul_comm]
+  generalize cs * ((len + cs - 1) / cs) = t at *
   omega
 
 /-- **exact_or_error**: for every resource, every positive chunk size, every hedging setting and
@@ -404,7 +410,7 @@ theorem exact_or_error (p : Params) (acts : List Act) (s : St) (bs : Bytes)
   have := assemble_exact p.res p.cs s.results 0 bs (fun k d hk => by simpa using i.exact k d hk) hf
   rw [this, i.lenR]
   simp
-  exact hcover
+  exact List.take_of_length_le hcover
 
 /-- The parameters the Go function derives from its configuration and the probed length. -/
 def paramsOf (c : Cfg) (res : Bytes) : Params :=
@@ -460,6 +466,16 @@ theorem plan_parallel_sound (c : Cfg) (headOk ranges : Bool) (len : Int) (n cs :
           rw [this, Nat.succ_mul]
           simp
         omega
+
+/-- **simple_exact**: the fallback path returns the body it received or an error. -/
+theorem simple_exact (maxFetch : Int) (status : Nat) (body b : Bytes)
+    (h : fetchSimple maxFetch status body = some b) : b = body ∧ status = 200 := by
+  unfold fetchSimple at h
+  split at h
+  · cases h
+  · split at h
+    · cases h
+    · cases h; exact ⟨rfl, by omega⟩
 
 /-! ### Hedged duplicates never change the result -/
 
@@ -561,15 +577,24 @@ theorem step_covered (p : Params) (s s' : St) (a : Act) (h : Inv p s) (hc : Cove
               have hlt : b.chunk < s.results.length := by rw [h.lenR]; exact h.inb b hb
               apply stored_of_get (d := data)
               simp [List.getElem?_set, hlt]
-          have hst2 := key _ rfl
-          split at hs
-          · cases hs
-            have r := maybeHedge_rel p a.enough a.slow _ (by
-              split <;> simp [h.lenH])
+          generalize hs2 :
+            (if stored { s with inflight := s.inflight.eraseIdx a.j, expected := s.expected - 1 } b.chunk = true
+              then ({ s with inflight := s.inflight.eraseIdx a.j, expected := s.expected - 1 } : St)
+              else { s with inflight := s.inflight.eraseIdx a.j, expected := s.expected - 1,
+                            results := s.results.set b.chunk (some data),
+                            remaining := s.remaining - 1 }) = s2 at hs
+          have hst2 : stored s2 b.chunk = true := key s2 hs2.symm
+          have hl2 : s2.hedged.length = p.n := by
+            rw [← hs2]; split <;> simp [h.lenH]
+          by_cases hpos : s2.remaining > 0
+          · simp only [hpos, if_true] at hs
+            cases hs
+            have r := maybeHedge_rel p a.enough a.slow s2 hl2
             rw [← hbi]
             unfold stored at hst2 ⊢
             rw [r.res]; exact hst2
-          · cases hs
+          · simp only [hpos, if_false] at hs
+            cases hs
             rw [← hbi]; exact hst2
 
 /-- **honest_server_succeeds**: if every received answer is acceptable (the server returns each
@@ -615,7 +640,7 @@ theorem honest_server_succeeds (p : Params) (hcover : p.res.length ≤ p.n * p.c
     unfold finish
     rw [hb, this, h.lenR]
     simp
-    exact hcover
+    exact List.take_of_length_le hcover
   | a :: as, s, s', h, hc, hok, hr, hend => by
     simp only [run] at hr
     cases hst : step p s a with
